@@ -124,6 +124,9 @@ def build():
         'no iteration over / ordered consumption of a set in the modules that generate SQL, hints and previews '
         '(everything set-typed goes through sorted() or an order-free use)'))
     fam.syntactic.append(Syntactic(
+        'index_drop_updates_state', ['C01', 'C03'], syn_index_drop_updates_state,
+        'every generated DROP INDEX is accompanied by the removal of the index from the in-memory database state'))
+    fam.syntactic.append(Syntactic(
         'generators_consumed_once', ['C14', 'C07'], syn_generators_consumed_once,
         'a generator-valued local on the SQL execution path is iterated once, or turned into a list first'))
     fam.syntactic.append(Syntactic(
@@ -276,3 +279,30 @@ def syn_generators_consumed_once():
     if found:
         return False, '; '.join(found)
     return True, '%d generator functions known, %d files scanned' % (len(gens), len(files))
+
+
+# ------------------------------------------------------------------------------------------------- C01 / C03
+def syn_index_drop_updates_state():
+    """DROP INDEX SQL is only ever generated together with the removal of that index from the in-memory database state
+    (later operations of the same run decide from that state whether an index has to be created): the raw generator
+    get_drop_index_sql is called only by drop_index_by_name (which removes the index first) and by the
+    get_drop_unique_constraint_sql wrapper, whose callers remove the index themselves."""
+    from pyvc import extract
+    found = []
+    for path in sorted(glob.glob(os.path.join(extract.REPO, 'django_evolution/db/*.py'))):
+        rel = os.path.relpath(path, extract.REPO)
+        for fn in ast.walk(ast.parse(open(path).read())):
+            if not isinstance(fn, ast.FunctionDef):
+                continue
+            calls = [c for c in ast.walk(fn) if isinstance(c, ast.Call) and isinstance(c.func, ast.Attribute)]
+            names = [c.func.attr for c in calls]
+            removes = any(c.func.attr == 'remove_index' for c in calls)
+            if 'get_drop_index_sql' in names and fn.name not in ('drop_index_by_name', 'get_drop_unique_constraint_sql'):
+                found.append('%s %s(): get_drop_index_sql() without drop_index_by_name()' % (rel, fn.name))
+            if fn.name == 'drop_index_by_name' and not removes:
+                found.append('%s drop_index_by_name(): no longer removes the index from the database state' % rel)
+            if 'get_drop_unique_constraint_sql' in names and not removes and fn.name != 'get_drop_unique_constraint_sql':
+                found.append('%s %s(): unique constraint dropped without remove_index()' % (rel, fn.name))
+    if found:
+        return False, '; '.join(sorted(set(found)))
+    return True, 'all DROP INDEX generators go through the state bookkeeping'
